@@ -9,6 +9,7 @@
 -/
 import RbModel.Lemmas.PairSpan
 import RbModel.Lemmas.Gpos
+import RbModel.Lemmas.MatchSpanLocal
 
 namespace RbModel.PairFlag
 open RbModel RbModel.Gsub RbModel.GposFlag RbModel.Flags
@@ -465,6 +466,200 @@ theorem machineKernLoopFI_spec (cm : Bool) (f : Font) (kernMask : Nat) (h cs : B
       obtain ⟨⟨rfl, _, _⟩, rfl, rfl⟩ := hr
       exact ⟨BufGrown.refl _, Nat.le_refl _, fun _ => by omega, fun e he => by cases he⟩
 
+
+
+/-- **frame of the whole loop**: a glyph that is neither the left nor the right glyph of a pair with a non-zero value keeps its
+    position; the position array keeps its size -/
+theorem machineKernLoopFI_frame (cm : Bool) (f : Font) (kernMask : Nat) (h cs : Bool) (kernOf : Nat → Nat → Int) :
+    ∀ (fuel i : Nat) (b : Buf) (p : Array Pos) (fl : Bool) (bF : Buf) (pF : Array Pos) (flF : Bool) (evs : List KEvent)
+      (iEnd : Nat),
+      machineKernLoopFI cm f kernMask h cs kernOf fuel i b p fl = .ok ((bF, pF, flF), evs, iEnd) →
+      pF.size = p.size ∧
+      ∀ q, (∀ e ∈ evs, e.found = true → e.kern ≠ 0 → q ≠ e.i ∧ q ≠ e.stop) → pF[q]? = p[q]? := by
+  intro fuel
+  induction fuel with
+  | zero =>
+    intro i b p fl bF pF flF evs iEnd hr
+    simp only [machineKernLoopFI, Except.ok.injEq, Prod.mk.injEq] at hr
+    obtain ⟨⟨_, rfl, _⟩, _, _⟩ := hr
+    exact ⟨rfl, fun _ _ => rfl⟩
+  | succ n ih =>
+    intro i b p fl bF pF flF evs iEnd hr
+    unfold machineKernLoopFI at hr
+    by_cases hi : i < b.len
+    · simp only [hi, if_true] at hr
+      cases hs : kernStepFI cm f kernMask h cs kernOf i b p fl with
+      | error e => simp [hs] at hr
+      | ok r =>
+        obtain ⟨⟨i1, b1, p1, fl1⟩, ev⟩ := r
+        simp only [hs] at hr
+        cases hl : machineKernLoopFI cm f kernMask h cs kernOf n i1 b1 p1 fl1 with
+        | error e => simp [hl] at hr
+        | ok r2 =>
+          obtain ⟨⟨b2, p2, fl2⟩, evs2, iE⟩ := r2
+          simp only [hl, Except.ok.injEq, Prod.mk.injEq] at hr
+          obtain ⟨⟨rfl, rfl, rfl⟩, rfl, rfl⟩ := hr
+          obtain ⟨hsz, hfr⟩ := ih i1 b1 p1 fl1 b2 p2 fl2 evs2 iE hl
+          obtain ⟨gi, hgi, s1, s2⟩ := kernStepFI_spec cm f kernMask h cs kernOf i b p fl i1 b1 p1 fl1 ev hs hi
+          -- the step itself
+          have step : p1.size = p.size ∧ ∀ q, (∀ e ∈ ev.toList, e.found = true → e.kern ≠ 0 → q ≠ e.i ∧ q ≠ e.stop) →
+              p1[q]? = p[q]? := by
+            cases ev with
+            | none => obtain ⟨_, _, _, rfl, _⟩ := s1 rfl; exact ⟨rfl, fun _ _ => rfl⟩
+            | some e =>
+              obtain ⟨_, hei, t1, t2⟩ := s2 e rfl
+              cases hf : e.found with
+              | false => obtain ⟨_, rfl, _⟩ := t1 hf; exact ⟨rfl, fun _ _ => rfl⟩
+              | true =>
+                obtain ⟨_, _, _, _, _, gj, _, _, k0, k1⟩ := t2 hf
+                by_cases hk : e.kern = 0
+                · obtain ⟨_, rfl, _⟩ := k0 hk; exact ⟨rfl, fun _ _ => rfl⟩
+                · obtain ⟨f1, hlk, _, _⟩ := k1 hk
+                  obtain ⟨z1, z2⟩ := Kern.kernPair_frame (liftG_ok _ _ hlk)
+                  refine ⟨z1, fun q hq => ?_⟩
+                  obtain ⟨q1, q2⟩ := hq e (by simp) hf hk
+                  rw [hei] at q1
+                  exact z2 q q1 q2
+          refine ⟨by rw [hsz, step.1], fun q hq => ?_⟩
+          rw [hfr q (fun e he => hq e (List.mem_append_right _ he)),
+            step.2 q (fun e he => hq e (List.mem_append_left _ he))]
+    · simp only [hi, if_false, Except.ok.injEq, Prod.mk.injEq] at hr
+      obtain ⟨⟨_, rfl, _⟩, _, _⟩ := hr
+      exact ⟨rfl, fun _ _ => rfl⟩
+
+
+/-! ### the decision is local: it depends on the glyphs read and on nothing else -/
+
+/-- the iterator `machine_kern` builds, written out -/
+def kernIt (kernMask len i : Nat) : It :=
+  { lookupProps := 8, ignoreZwnj := true, ignoreZwj := true, ignoreHidden := true, mask := kernMask, syllable := 0,
+    bufLen := len, idx := i }
+
+theorem kernIt_new_eq (f : Font) (b : Buf) (kernMask i : Nat) :
+    It.new (kernCtx f b kernMask) i false = .ok (kernIt kernMask b.len i) := by
+  simp [It.new, kernCtx, kernIt, bind, Except.bind, pure, Except.pure]
+
+/-- the deciding part of one iteration: mask test, iterator, kerning value — no positions, no flags -/
+def kernDecideI (f : Font) (kernMask : Nat) (kernOf : Nat → Nat → Int) (i : Nat) (info : List Info) (len : Nat) :
+    RbModel.M (Option KEvent) :=
+  match Mem.get info i with
+  | .error e => .error e
+  | .ok gi =>
+    if gi.mask &&& kernMask = 0 then .ok none
+    else
+      match It.nextI (kernIt kernMask len i) f info len with
+      | .error e => .error e
+      | .ok ((false, _, unsafeTo), rs) => .ok (some ⟨i, rs, false, unsafeTo, 0⟩)
+      | .ok ((true, it, _), rs) =>
+        match Mem.get info it.idx with
+        | .error e => .error e
+        | .ok gj => .ok (some ⟨i, rs, true, it.idx, kernOf gi.gid gj.gid⟩)
+
+/-- the event of an iteration is what `kernDecideI` decides -/
+theorem kernStepFI_decide (cm : Bool) (f : Font) (kernMask : Nat) (h cs : Bool) (kernOf : Nat → Nat → Int) (i : Nat) (b : Buf)
+    (p : Array Pos) (fl : Bool) (r : Nat × Buf × Array Pos × Bool) (ev : Option KEvent)
+    (hs : kernStepFI cm f kernMask h cs kernOf i b p fl = .ok (r, ev)) :
+    kernDecideI f kernMask kernOf i b.info b.len = .ok ev := by
+  unfold kernStepFI at hs
+  unfold kernDecideI
+  cases hg : Mem.get b.info i with
+  | error e => simp [hg] at hs
+  | ok gi =>
+    simp only [hg] at hs ⊢
+    split at hs
+    · rename_i hm
+      simp only [Except.ok.injEq, Prod.mk.injEq] at hs
+      rw [if_pos hm, hs.2]
+    · rename_i hm
+      rw [if_neg hm]
+      rw [kernIt_new_eq] at hs
+      simp only at hs
+      cases hx : It.nextI (kernIt kernMask b.len i) f b.info b.len with
+      | error e => simp [hx] at hs
+      | ok r2 =>
+        obtain ⟨⟨fd, it2, u⟩, rs⟩ := r2
+        simp only [hx] at hs ⊢
+        cases fd with
+        | false =>
+          simp only at hs ⊢
+          cases cm with
+          | false =>
+            simp only [Bool.false_eq_true, if_false, Except.ok.injEq, Prod.mk.injEq] at hs
+            rw [hs.2]
+          | true =>
+            simp only [if_true] at hs
+            cases hc : b.unsafeToConcat i (some u) with
+            | error e => simp [hc] at hs
+            | ok b2 =>
+              simp only [hc, Except.ok.injEq, Prod.mk.injEq] at hs
+              rw [hs.2]
+        | true =>
+          simp only at hs ⊢
+          cases hg2 : Mem.get b.info it2.idx with
+          | error e => simp [hg2] at hs
+          | ok gj =>
+            simp only [hg2] at hs ⊢
+            by_cases hk : kernOf gi.gid gj.gid ≠ 0
+            · rw [if_pos hk] at hs
+              cases hl : liftG (Kern.kernPair p i it2.idx (kernOf gi.gid gj.gid) h cs) with
+              | error e => simp [hl] at hs
+              | ok r3 =>
+                obtain ⟨p2, f1⟩ := r3
+                simp only [hl] at hs
+                cases hb : b.unsafeToBreak i (some (it2.idx + 1)) with
+                | error e => simp [hb] at hs
+                | ok b2 =>
+                  simp only [hb, Except.ok.injEq, Prod.mk.injEq] at hs
+                  rw [hs.2]
+            · rw [if_neg hk] at hs
+              simp only [Except.ok.injEq, Prod.mk.injEq] at hs
+              have h0 : kernOf gi.gid gj.gid = 0 := by
+                rcases Decidable.em (kernOf gi.gid gj.gid = 0) with h0 | h0
+                · exact h0
+                · exact absurd h0 hk
+              rw [← hs.2, h0]
+
+/-- **the decision is local**: a glyph array of the same length that holds the same glyphs at `i` and at every index the
+    iterator read gives the same decision -/
+theorem kernDecideI_local (f : Font) (kernMask : Nat) (kernOf : Nat → Nat → Int) (i : Nat) (info1 info2 : List Info) (len : Nat)
+    (ev : Option KEvent) (h1 : kernDecideI f kernMask kernOf i info1 len = .ok ev) (hi : info1[i]? = info2[i]?)
+    (hag : ∀ e, ev = some e → ∀ r ∈ e.reads, info1[r]? = info2[r]?) :
+    kernDecideI f kernMask kernOf i info2 len = .ok ev := by
+  unfold kernDecideI at h1 ⊢
+  rw [get_congr hi]
+  cases hg : Mem.get info1 i with
+  | error e => simp [hg] at h1
+  | ok gi =>
+    simp only [hg] at h1 ⊢
+    split at h1
+    · rename_i hm; rw [if_pos hm]; exact h1
+    · rename_i hm
+      rw [if_neg hm]
+      cases hx : It.nextI (kernIt kernMask len i) f info1 len with
+      | error e => simp [hx] at h1
+      | ok r2 =>
+        obtain ⟨⟨fd, it2, u⟩, rs⟩ := r2
+        simp only [hx] at h1
+        have hrs : ∀ r ∈ rs, info1[r]? = info2[r]? := by
+          cases fd with
+          | false =>
+            simp only [Except.ok.injEq] at h1
+            exact hag _ h1.symm
+          | true =>
+            simp only at h1
+            cases hg2 : Mem.get info1 it2.idx with
+            | error e => simp [hg2] at h1
+            | ok gj =>
+              simp only [hg2, Except.ok.injEq] at h1
+              exact hag _ h1.symm
+        rw [It.nextI_local f info1 info2 len _ _ _ hx hrs]
+        cases fd with
+        | false => exact h1
+        | true =>
+          simp only at h1 ⊢
+          obtain ⟨_, _, _, _, a5, _⟩ := It.nextI_span _ _ _ _ _ _ _ _ hx
+          rw [get_congr (hrs _ (a5 rfl))]
+          exact h1
 
 /-! ### the two entry points -/
 
